@@ -8,6 +8,8 @@
 //	sender     s-<cls>-<flags>-<S><C><A>-<n>@<domain>      cls t|p; flags subset of "csiw" or "0";
 //	                                                       S/C/A = bit masks (targets whose Start / Commit / Abort fails)
 //	recipient  r<id>-<cls>-<flags>-<mask>-<n>@d<j>.example flags subset of "cm" or "0"; mask = targets whose AddRcpt fails
+//	alias      r<id>-<cls>-<flags>-<mask>-<n>-<a1|a2|b1>@d<j>.example   rewritten by the modifier (see Rewrite): a2 -> a1,
+//	                                                       a1 -> the mailbox, b1 -> the mailbox, each step into the NEXT domain
 //	header     X-Vc03: <cls>-<flags>-<B>-P<ids>            flags subset of "cm" or "0"; B = targets whose Body fails;
 //	                                                       ids = recipient ids refused by partial targets (LMTP)
 package vc03
@@ -204,8 +206,8 @@ type Target struct {
 }
 
 func (t *Target) Init(*config.Map) error { return nil }
-func (t *Target) Name() string          { return "vc03_target" }
-func (t *Target) InstanceName() string  { return fmt.Sprintf("vc03t%d", t.Idx) }
+func (t *Target) Name() string           { return "vc03_target" }
+func (t *Target) InstanceName() string   { return fmt.Sprintf("vc03t%d", t.Idx) }
 
 type delivery struct {
 	t *Target
@@ -345,8 +347,8 @@ func (dl *delivery) Abort(ctx context.Context) error {
 type Check struct{ L *Log }
 
 func (c *Check) Init(*config.Map) error { return nil }
-func (c *Check) Name() string          { return "vc03_check" }
-func (c *Check) InstanceName() string  { return "vc03chk" }
+func (c *Check) Name() string           { return "vc03_check" }
+func (c *Check) InstanceName() string   { return "vc03chk" }
 
 type checkState struct {
 	c *Check
@@ -400,8 +402,8 @@ func (s *checkState) Close() error { return nil }
 type Modifier struct{ L *Log }
 
 func (m *Modifier) Init(*config.Map) error { return nil }
-func (m *Modifier) Name() string          { return "vc03_modifier" }
-func (m *Modifier) InstanceName() string  { return "vc03mod" }
+func (m *Modifier) Name() string           { return "vc03_modifier" }
+func (m *Modifier) InstanceName() string   { return "vc03mod" }
 
 type modState struct {
 	m *Modifier
@@ -431,7 +433,32 @@ func (s *modState) RewriteRcpt(ctx context.Context, to string) ([]string, error)
 		s.m.L.global("mod-rcpt")
 		return nil, Err(f.Cls, StModRcpt)
 	}
-	return []string{to}, nil
+	return []string{Rewrite(to)}, nil
+}
+
+// Rewrite is the rewrite table of the scripted modifier, a function of the address alone: an alias form
+// r…-<n>-a2@d<j> is rewritten to r…-<n>-a1@d<j+1>, r…-<n>-a1@d<j> and r…-<n>-b1@d<j> to the mailbox r…-<n>@d<j+1>
+// (domains d0..d2, cyclically); everything else stays as it is.  The fault fields are kept, so a target sees
+// the same faults under the effective address; the destination block is the one of the effective domain.
+func Rewrite(addr string) string {
+	at := strings.LastIndexByte(addr, '@')
+	if at < 0 {
+		return addr
+	}
+	p := strings.Split(addr[:at], "-")
+	dom := addr[at+1:]
+	if len(p) != 6 || len(p[0]) < 2 || p[0][0] != 'r' || len(dom) != len("d0.example") || dom[0] != 'd' || dom[1] < '0' || dom[1] > '2' || dom[2:] != ".example" {
+		return addr
+	}
+	lp := strings.Join(p[:5], "-")
+	switch p[5] {
+	case "a2":
+		lp += "-a1"
+	case "a1", "b1":
+	default:
+		return addr
+	}
+	return fmt.Sprintf("%s@d%d.example", lp, (int(dom[1]-'0')+1)%3)
 }
 
 func (s *modState) RewriteBody(ctx context.Context, h *textproto.Header, b buffer.Buffer) error {
@@ -450,8 +477,8 @@ func (s *modState) Close() error { return nil }
 type Auth struct{ User, Pass string }
 
 func (a Auth) Init(*config.Map) error { return nil }
-func (a Auth) Name() string          { return "vc03_auth" }
-func (a Auth) InstanceName() string  { return "vc03auth" }
+func (a Auth) Name() string           { return "vc03_auth" }
+func (a Auth) InstanceName() string   { return "vc03auth" }
 func (a Auth) AuthPlain(u, p string) error {
 	if u == a.User && p == a.Pass {
 		return nil
